@@ -431,6 +431,16 @@ def kindOf? : String → Option AC.Verify.Kind
   | "ved" => some .ved
   | _ => none
 
+def kindName : AC.Verify.Kind → String
+  | .signature => "signature"
+  | .revocation => "revocation"
+  | .equality => "equality"
+  | .commitment => "commitment"
+  | .verenc => "verenc"
+  | .range => "range"
+  | .membership => "membership"
+  | .ved => "ved"
+
 def planOp (toks : List String) : Option String :=
   open AC.Verify in
   let entries : String → List String := fun s => if s = "-" then [] else s.splitOn ";"
@@ -504,7 +514,8 @@ def createOp (toks : List String) : Option String :=
   let items : String → List String := fun s => if s = "-" then [] else s.splitOn ","
   let optInt : String → Option (Option Int) := fun s => if s = "-" then some none else (s.toInt?).map some
   match toks with
-  | ["cr.ok", creds, stmts] =>
+  | [op, creds, stmts] =>
+    if op != "cr.ok" && op != "cr.proofs" then none else
     let cred? : String → Option (String × CredI) := fun tok =>
       match tok.splitOn "/" with
       | [k, "M"] => some (k, .membership)
@@ -532,7 +543,13 @@ def createOp (toks : List String) : Option String :=
         | _, _, _ => none
       | _ => none
     match (entries creds).mapM cred?, (entries stmts).mapM stmt? with
-    | some creds, some stmts => some (toString (createOk creds stmts))
+    | some creds, some stmts =>
+      if op == "cr.ok" then some (toString (createOk creds stmts))
+      else some (match createProofs creds stmts with
+        | none => "err"
+        | some ps => if ps.isEmpty then "-" else ";".intercalate (ps.map fun p =>
+            p.id ++ "/" ++ kindName p.kind ++ "/" ++ toString p.n ++ "/" ++
+              (if p.revealed.isEmpty then "-" else ",".intercalate (p.revealed.map toString))))
     | _, _ => none
   | _ => none
 
